@@ -263,10 +263,13 @@ type c05kept struct {
 }
 
 type c05store struct {
-	kept  []c05kept // bytes of earlier direct MarshalJSON calls, with what they were
-	name  string
-	m     *ordered.MapSA
-	model *mmodel
+	kept []c05kept // bytes of earlier direct MarshalJSON calls, with what they were
+	// the caller's own list a map was built from (MapFromItems(list...)) and what it looked like then
+	items     []ordered.TupleSA
+	itemsWant string
+	name      string
+	m         *ordered.MapSA
+	model     *mmodel
 }
 
 func c05Key(alpha []string, i int) string { return alpha[i%len(alpha)] }
@@ -321,7 +324,7 @@ func runC05(c *engine.Ctx) {
 		fullEvery = p.Range(7, 60, "cfg:fullevery")
 	}
 	startA := p.Draw(3, "cfg:startA") // 0 NewMap, 1 new(Map), 2 MapFromItems
-	startB := p.Draw(5, "cfg:startB") // 0 mirror, 1 NewMap, 2 new(Map), 3 nil, 4 MapFromItems
+	startB := p.Draw(6, "cfg:startB") // 0 mirror, 1 NewMap, 2 new(Map), 3 nil, 4 MapFromItems, 5 MapFromItems of A's own list
 	reentrant := p.Draw(3, "cfg:reentrant") != 0
 	nestedVals := p.Draw(4, "cfg:nested") == 3
 
@@ -372,6 +375,7 @@ func runC05(c *engine.Ctx) {
 				st.model.set(k, v)
 			}
 			c.Guard("C05.panic", "MapFromItems", func() { st.m = ordered.MapFromItems(items...) })
+			st.items, st.itemsWant = items, fmt.Sprintf("%+v", items)
 		case 3:
 			st.m = nil
 			st.model.isNil = true
@@ -398,6 +402,18 @@ func runC05(c *engine.Ctx) {
 		B = mk("B", 3)
 	case 4:
 		B = mk("B", 2)
+	case 5:
+		// a second map built from the very list the caller built A from: two maps, one list, three owners
+		if A.items == nil {
+			B = mk("B", 2)
+			break
+		}
+		B = &c05store{name: "B", model: &mmodel{}}
+		for _, it := range A.items {
+			B.model.set(it.Key, anyToMval(it.Value))
+		}
+		c.Guard("C05.panic", "MapFromItems (same list)", func() { B.m = ordered.MapFromItems(A.items...) })
+		c.Probe("two_maps_from_one_caller_list")
 	}
 	c.Ev("start", startA, startB, len(alpha), nops, reentrant)
 
@@ -808,6 +824,12 @@ func checkStore(c *engine.Ctx, st *c05store, alpha []string, full bool, lastOp s
 			fail("C05.json", "(*Map)(nil).MarshalJSON error: %v", jerr)
 		}
 		jb = d
+	}
+	// the list the caller built the map from is the caller's: no operation on the map shows in it
+	if st.items != nil {
+		if got := fmt.Sprintf("%+v", st.items); got != st.itemsWant {
+			fail("C05.caller-list", "the list passed to MapFromItems was %s and has become %s", st.itemsWant, got)
+		}
 	}
 	// results handed out earlier stay what they were: a caller may keep the bytes of a direct MarshalJSON call
 	for _, r := range st.kept {
